@@ -807,6 +807,17 @@ def sum_unwrap_or(ex, st, func, args, dest_ty):
         st.pc.append(d == 0); out.append((st, args[1]))
     return out
 
+def sum_option_or(ex, st, func, args, dest_ty):
+    """Option::<T>::or(other): self when it is Some, other otherwise"""
+    o = _target(st, args[0])
+    if not isinstance(o, ObjV) or len(args) < 2: return None
+    d = ex.discr(st, o).t; out = []
+    if ex.feasible(st, d == 1):
+        s2 = st.clone(); s2.pc.append(d == 1); out.append((s2, _target(s2, args[0])))
+    if ex.feasible(st, d == 0):
+        st.pc.append(d == 0); out.append((st, args[1]))
+    return out
+
 def sum_unwrap(ex, st, func, args, dest_ty):
     """Option::unwrap / expect, Result::unwrap / expect: the payload, or a panic path when there is none"""
     v = args[0]
@@ -888,6 +899,7 @@ GENERIC = [
     (r'Option::<.*>::is_some$|Option::<.*>::is_none$|Result::<.*>::is_ok$|Result::<.*>::is_err$', sum_is_variant),
     (r'Option::<\w+>::unwrap_or_default$|Option::<\w+>::unwrap_or$', sum_unwrap_or_default_int),
     (r'^(std::option::)?Option::<.*>::unwrap_or$', sum_unwrap_or),
+    (r'^(std::option::)?Option::<.*>::or$', sum_option_or),
     (r'Result::<.*>::map_err::<', sum_map_err),
     (r' as PartialEq>::(eq|ne)$', sum_fieldless_eq),
     (r'^<Result<.*> as Try>::branch$|^<std::result::Result<.*> as Try>::branch$', sum_try_branch),
